@@ -69,6 +69,33 @@ def _flag_assigns(f, flag):
     return out
 
 
+def refuse_before_close_rules(facts, rep, rule="C12-TS"):
+    """a start that is refused for its arguments (a name that does not fit the 16-bit length field) leaves the writer as it was: the
+    refusal comes before the previous entry is closed.  Closing first consumes the `writing_raw` flag of a raw copy (or of an archive
+    opened for append); the refused call returns Err, and the finish() that follows closes that entry a second time as if it had been
+    written through the writer -- its CRC and sizes are re-patched from the accounting of its compressed bytes."""
+    from engine.paths import paths as _paths, PathExplosion
+    se = facts.one(ZW + "start_entry$")
+    try:
+        ps = _paths(se, max_paths=30000)
+    except PathExplosion:
+        return bool(rep.check(False, rule, "I5:refused-start-leaves-writer-untouched", where(se, se.span), "", "start_entry has too many paths to decide (fail closed)"))
+    n = bad = 0
+    for p_ in ps:
+        dec = [(i_, v_) for i_, (a_, v_) in enumerate(p_["decisions"]) if re.match(r"^(Gt|Ge)\(.*len\(.*, 6553[56]\)$", a_)]
+        if not dec or dec[-1][1] != 1 or outcome(p_)[0] not in ("Err", "ErrProp", "value"):
+            continue
+        n += 1
+        dp = p_["dpos"][dec[-1][0]]
+        before = [e_[1] for e_, ep_ in zip(p_["effects"], p_["epos"]) if ep_ <= dp]
+        if any(re.search(r"::finish_file$|::switch_to$|Seek::seek$|Write::write", x_) for x_ in before):
+            bad += 1
+    return bool(rep.check(n >= 1 and bad == 0, rule, "I5:refused-start-leaves-writer-untouched", where(se, se.span),
+                          "the name-length refusal of start_entry precedes finish_file (no state is consumed by a call that is refused for its arguments)",
+                          "start_entry closes the previous entry (consuming its raw flag) BEFORE it refuses an over-long name: after raw_copy_file / new_append, "
+                          "start_file(<name of 65536 bytes>) -> Err, finish() -> Ok re-patches the copied entry's CRC and sizes"))
+
+
 def ts_rules(facts, rep):
     rule = "C12-TS"
     ok = True
@@ -521,6 +548,7 @@ def run(ctx, rep):
         "(3) every failing path of the compressor switch leaves the writer closed; (4) per-entry CRC/size accounting and reset. The "
         "content-level clause ('exactly the entries/bytes') is not decided beyond (3) and (4).")
     void = set()
+    refuse_before_close_rules(facts, rep)
     if not ts_rules(facts, rep):
         void.add("C12-TS")
     failclosed_rules(facts, rep)
